@@ -46,7 +46,10 @@ class ForeverBreakWriteHandler(AbstractWriteHandler):
     def write_content(self) -> Vertex | None:
         """Print a break and end"""
         logger.debug("Handling a break_loop; (%s)...", self.start_vertex["op"])
-        self.decompiler.source_map_add_opcode(self.start_vertex["op"].offset)
+        # An inserted jump borrows the offset of the op before it; registering it would move that op's entry here.
+        op = self.start_vertex["op"]
+        if not getattr(op.get_marker(), "inserted", False):
+            self.decompiler.source_map_add_opcode(op.offset)
         self.decompiler.write_stmnt("break_loop;")
         exits = self.start_vertex.out_edges()
         if len(exits) == 1:
